@@ -441,7 +441,7 @@ def _cfg_name(c):
 
 OBLIGATIONS = [
     Ob(fn="match_config", clause="an operation is selected iff it matches at least one include filter (or there are none) and no exclude filter - by value, list, regex, expression, deprecated; mixed-case methods",
-       timeout={"quick": 100, "thorough": 400}, params=range(len(CONFIGS)), param_names=[_cfg_name(c) for c in CONFIGS], functions=_FF,
+       timeout={"quick": 100, "thorough": 200}, params=range(len(CONFIGS)), param_names=[_cfg_name(c) for c in CONFIGS], functions=_FF,
        symbolic="the operation: method spelling (7), path text, 0-2 tags or no tags, optional operationId, deprecated flag, x-internal flag",
        bounds={"quick": "path <= 3 characters, tags/operationId <= 2 characters; %d filter configurations (every matcher kind alone as include and as exclude, 13 include+exclude pairs, double includes/excludes, triples)" % len(CONFIGS),
                "thorough": "path <= 4 characters"},
@@ -464,6 +464,6 @@ OBLIGATIONS = [
        functions=["schemathesis.cli.commands.run.filters.FilterArguments.into", "schemathesis.cli.commands.run.filters.apply_exclude_filter"] + _FF,
        symbolic="which second option setting (21) is given besides the enumerated first, evaluated operation (4)", bounds="pairs of CLI options; one include regex option in the family; 4 concrete operations", path_timeout=60,
        outside=["several --include-*-regex options together (the code ANDs them; the property does not say)"]),
-    Ob(fn="cli_into_3", clause="same, three options at a time", tiers=("thorough",), timeout=900, params=range(21), functions=["schemathesis.cli.commands.run.filters.FilterArguments.into"],
+    Ob(fn="cli_into_3", clause="same, three options at a time", tiers=("thorough",), timeout=300, params=range(21), functions=["schemathesis.cli.commands.run.filters.FilterArguments.into"],
        symbolic="second and third option (first enumerated), evaluated operation", bounds="triples of CLI options", path_timeout=60),
 ]
